@@ -1135,10 +1135,9 @@ class Summarizer:
                     return ("fresh", [])
                 p = self.to_path(fr, rv, e)
                 root = _root(p)
-                if m in STRATEGY_METHODS and m != "update" and root[0] == "attr" and self.is_param(root[1]):
-                    self.emit(("callInner", p, self.meta(fr, e)))
-                    return ("fresh", [])
-                if m == "update" and root[0] == "attr" and self.is_param(root[1]) and self.cls_is_strategy():
+                holds_strategy = root[0] == "attr" and self.is_param(root[1]) and any(w in root[1] for w in ("strategy", "manager"))
+                if m in STRATEGY_METHODS and holds_strategy and p == root:
+                    # public method of another strategy object held in a constructor parameter (wrappers)
                     self.emit(("callInner", p, self.meta(fr, e)))
                     return ("fresh", [])
                 if m in FIT_METHODS or m in STRATEGY_METHODS:
